@@ -338,7 +338,7 @@ theorem backendPublish_full (s s' : BState) (c : ConnId) (m : Message) (h : back
 
 theorem queueRetained_ok (cfg : Cfg) (ms : List Message) (g : Nat) :
     ∀ (b b' : BSess), queueRetained cfg b ms g = some b' →
-      b'.tempQ = b.tempQ ++ ms.map (fun m => (g, m)) ∧ b'.storedQ = b.storedQ ∧ b'.subs = b.subs ∧
+      b'.tempQ = b.tempQ ++ ms.map (fun m => (g, applyQOS b m)) ∧ b'.storedQ = b.storedQ ∧ b'.subs = b.subs ∧
       b'.sess = b.sess ∧ b'.active = b.active := by
   induction ms with
   | nil =>
@@ -351,27 +351,33 @@ theorem queueRetained_ok (cfg : Cfg) (ms : List Message) (g : Nat) :
     split at h
     · obtain ⟨h1, h2, h3, h4, h5⟩ := ih _ _ h
       refine ⟨?_, h2, h3, h4, h5⟩
-      rw [h1]; simp
+      rw [h1]
+      have e : ∀ m', applyQOS { b with tempQ := b.tempQ ++ [(g, applyQOS b m)] } m' = applyQOS b m' :=
+        fun m' => BrokerFan.applyQOS_congr rfl m'
+      simp [e]
     · cases h
 
 /-- the replayed retained messages of one filter, as found in the store -/
 def replayOne (s : BState) (f : Bytes) : List Message :=
   (Tree.search f s.retained).filterMap (fun i => s.rmsgs[i]?)
 
-/-- everything a SUBSCRIBE appends to the temporary queue: one group per filter -/
-def replay (s : BState) : Nat → List Subscription → List (Nat × Message)
+/-- everything a SUBSCRIBE appends to the temporary queue: one group per filter, every message
+    capped by the grant of session `b` (the session with the subscriptions of the SUBSCRIBE stored) -/
+def replay (s : BState) (b : BSess) : Nat → List Subscription → List (Nat × Message)
   | _, [] => []
-  | g, sub :: rest => (replayOne s sub.topic).map (fun m => (g, m)) ++ replay s (g + 1) rest
+  | g, sub :: rest => (replayOne s sub.topic).map (fun m => (g, applyQOS b m)) ++ replay s b (g + 1) rest
 
 theorem replay_congr (s1 s2 : BState) (h1 : s1.retained = s2.retained) (h2 : s1.rmsgs = s2.rmsgs)
-    (subs : List Subscription) : ∀ g, replay s1 g subs = replay s2 g subs := by
+    (b1 b2 : BSess) (hb : b1.subs = b2.subs)
+    (subs : List Subscription) : ∀ g, replay s1 b1 g subs = replay s2 b2 g subs := by
+  have e : ∀ m, applyQOS b1 m = applyQOS b2 m := fun m => BrokerFan.applyQOS_congr hb m
   induction subs with
   | nil => intro g; rfl
-  | cons sub rest ih => intro g; simp only [replay, replayOne, h1, h2, ih]
+  | cons sub rest ih => intro g; simp only [replay, replayOne, h1, h2, ih, e]
 
 theorem subscribeRetained_ok (c : ConnId) (subs : List Subscription) :
     ∀ (s s' : BState) (b : BSess), s.sessOf c = some b → subscribeRetained s c subs = .ok s' →
-      ∃ b', s'.sessOf c = some b' ∧ b'.tempQ = b.tempQ ++ replay s s.nextGroup subs ∧
+      ∃ b', s'.sessOf c = some b' ∧ b'.tempQ = b.tempQ ++ replay s b s.nextGroup subs ∧
         b'.storedQ = b.storedQ ∧ b'.subs = b.subs ∧ b'.sess = b.sess ∧ b'.active = b.active ∧
         s'.conns = s.conns ∧ s'.retained = s.retained ∧ s'.rmsgs = s.rmsgs ∧ s'.cfg = s.cfg ∧
         s'.lateAck = s.lateAck ∧ s'.neverAck = s.neverAck ∧ s'.pendingAcks = s.pendingAcks ∧
@@ -397,7 +403,7 @@ theorem subscribeRetained_ok (c : ConnId) (subs : List Subscription) :
         r9.trans f4, r10.trans f2, r11.trans f6, r12.trans f7, r13.trans f8, ?_⟩
       · rw [r2, q1]
         simp only [replay, List.append_assoc]
-        have := replay_congr ({ (s.setSessOf c b1) with nextGroup := s.nextGroup + 1 }) s f3 f4 rest (s.nextGroup + 1)
+        have := replay_congr ({ (s.setSessOf c b1) with nextGroup := s.nextGroup + 1 }) s f3 f4 b1 b q3 rest (s.nextGroup + 1)
         rw [this]
         rfl
       · rw [r14]; simp; omega
@@ -540,7 +546,7 @@ theorem recv_subscribe (s : BState) (c : ConnId) (x : BConn) (b : BSess) (subs :
     (s' : BState) (hm : s' ∈ ss) (x' : BConn) (hc' : s'.conn? c = some x') (ha' : x'.alive = true) :
     ∃ b', s'.sessOf c = some b' ∧
       b'.subs = subs.foldl (fun n sub => Tree.set sub.topic sub.qos.toNat n) b.subs ∧
-      b'.tempQ = b.tempQ ++ replay s s.nextGroup subs ∧ b'.storedQ = b.storedQ ∧
+      b'.tempQ = b.tempQ ++ replay s b' s.nextGroup subs ∧ b'.storedQ = b.storedQ ∧
       s'.retained = s.retained ∧ s'.rmsgs = s.rmsgs ∧
       AckEffect s s' c x x' (.suback (subs.map (·.qos)) id) := by
   obtain ⟨ph, al, xid, will, sref, procOut, ackOut, pubTok, subTok, deqChan, deqHand, running,
@@ -592,9 +598,9 @@ theorem recv_subscribe (s : BState) (c : ConnId) (x : BConn) (b : BSess) (subs :
     subst hx
     refine ⟨b', r1, ?_, ?_, ?_, ?_, ?_, ?_⟩
     · rw [r4, ← hb2]
-    · rw [r2, ← hb2]
-      have := replay_congr s3 s (by rw [a2, f3, e1]) (by rw [a3, f4, e2]) subs
-      rw [this, a5, f5, e3]
+    · rw [r2]
+      have := replay_congr s3 s (by rw [a2, f3, e1]) (by rw [a3, f4, e2]) b2 b' r4.symm subs
+      rw [this, a5, f5, e3, ← hb2]
     · rw [r3, ← hb2]
     · rw [r8, a2, f3, e1]
     · rw [r9, a3, f4, e2]
